@@ -11,6 +11,7 @@ from sfa.model import call_name
 from sfa.model import kwarg
 from sfa.model import norm
 from sfa.model import walk_local
+from sfa import roles
 from sfa.report import Ctx
 from sfa.rules import pair
 
@@ -171,8 +172,9 @@ def descending_is_reversal(ctx: Ctx) -> None:
         for u in uses:
             ctxt = _context(f, u)
             if isinstance(ctxt, ast.If) and norm(ctxt.test) == 'not ascending':
-                body = [norm(s) for s in ctxt.body]
-                if len(ctxt.body) == 1 and body[0] in ('order = order[::-1]', 'order = np.flip(order)', 'order = order[::-1].copy()') and not ctxt.orelse:
+                body = [norm(s) for s in ctxt.body if not isinstance(s, ast.Pass)]
+                acts = [s for s in ctxt.body if not isinstance(s, ast.Pass)]
+                if len(acts) == 1 and _is_reversal(acts[0]) and not ctxt.orelse:
                     n_rev += 1
                 else:
                     problems.append(f'`if not ascending` does `{body[0][:50]}` rather than reversing the permutation')
@@ -189,6 +191,19 @@ def descending_is_reversal(ctx: Ctx) -> None:
             if sorts and revs and min(revs) < max(sorts):
                 problems.append('the reversal precedes the sort')
         (ctx.bad if problems else ctx.ok)(R, f, f.node, '; '.join(problems) or f'{n_rev} reversal(s) after the sort, {n_fwd} pass-through(s)', key=key)
+
+
+def _is_reversal(st: ast.stmt) -> bool:
+    '''`p = p[::-1]` / `p = np.flip(p)` / `p = p[::-1].copy()` for one and the same local p.'''
+    if not (isinstance(st, ast.Assign) and len(st.targets) == 1 and isinstance(st.targets[0], ast.Name)):
+        return False
+    p = st.targets[0].id
+    v = st.value
+    if isinstance(v, ast.Call) and isinstance(v.func, ast.Attribute) and v.func.attr == 'copy' and not v.args:
+        v = v.func.value
+    if isinstance(v, ast.Subscript) and isinstance(v.value, ast.Name) and v.value.id == p and norm(v.slice) == '::-1':
+        return True
+    return isinstance(v, ast.Call) and call_name(v) == 'np.flip' and len(v.args) == 1 and isinstance(v.args[0], ast.Name) and v.args[0].id == p
 
 
 def _context(f: FuncInfo, target: ast.AST) -> ast.AST:
@@ -222,10 +237,11 @@ def whole_rows(ctx: Ctx) -> None:
     # Index.sort / IndexHierarchy.sort: the permutation from sort_index_for_order feeds the extraction directly
     for cname, consumer in (('Index', 'self._extract_iloc'), ('IndexHierarchy', 'self._blocks._extract')):
         f = prog.method(cname, 'sort', inherited=False)
-        orders = [a for a in walk_local(f.node) if isinstance(a, ast.Assign) and norm(a.targets[0]) == 'order'
+        orders = [a for a in walk_local(f.node) if isinstance(a, ast.Assign) and isinstance(a.targets[0], ast.Name)
                   and isinstance(a.value, ast.Call) and call_name(a.value) == 'sort_index_for_order']
+        onames = {a.targets[0].id for a in orders}
         used = [c for c in walk_local(f.node) if isinstance(c, ast.Call) and call_name(c) == consumer
-                and any(norm(a) == 'order' for a in list(c.args) + [k.value for k in c.keywords])]
+                and any(isinstance(a, ast.Name) and a.id in onames for a in list(c.args) + [k.value for k in c.keywords])]
         arg0_self = bool(orders) and orders[0].value.args and norm(orders[0].value.args[0]) == 'self'
         good = bool(orders) and bool(used) and arg0_self
         (ctx.ok if good else ctx.bad)(R, f, f.node, f'order = sort_index_for_order(self, ...) feeds {consumer}' if good else
@@ -238,10 +254,14 @@ def order_from_keys(ctx: Ctx) -> None:
              '(np.argsort / np.lexsort) applied to values data-dependent on the key container (the key function\'s result when one is '
              'given), or the reversal of the permutation itself: no path returns an order that ignores the sort keys', floor=3)
     prog = ctx.prog
-    for qual, seeds in (('container_util.sort_index_for_order', ('cfs',)), ('series.Series.sort_values', ('cfs', 'cfs_values')),
-                        ('frame.Frame.sort_values', ('cfs',))):
+    for qual in ('container_util.sort_index_for_order', 'series.Series.sort_values', 'frame.Frame.sort_values'):
         f = prog.func(qual)
-        tainted = set(seeds)
+        # roles: the key container is what the `key` parameter's call result is assigned to; the permutation is every local that
+        # receives the result of a sort primitive
+        keyed_names = roles.assigned_from_all(f.node, lambda v: isinstance(v, ast.Call) and isinstance(v.func, ast.Name) and v.func.id == 'key' and 'key' in f.params)
+        perm = set(roles.assigned_from_all(f.node, lambda v: isinstance(v, ast.Call) and call_name(v) in ('np.argsort', 'np.lexsort')))
+        ctx.require(len(perm) >= 1, f'{qual} computes a permutation with np.argsort / np.lexsort')
+        tainted = set(keyed_names)
         changed = True
         while changed:
             changed = False
@@ -250,26 +270,22 @@ def order_from_keys(ctx: Ctx) -> None:
                     names = [t.id for t in a.targets if isinstance(t, ast.Name)]
                     if any(isinstance(x, ast.Name) and x.id in tainted for x in ast.walk(a.value)):
                         for nme in names:
-                            if nme not in tainted and nme != 'order':
+                            if nme not in tainted and nme not in perm:
                                 tainted.add(nme)
                                 changed = True
-        defs = [a for a in walk_local(f.node) if isinstance(a, ast.Assign) and any(isinstance(t, ast.Name) and t.id == 'order' for t in a.targets)]
+        defs = [a for a in walk_local(f.node) if isinstance(a, ast.Assign) and any(isinstance(t, ast.Name) and t.id in perm for t in a.targets)]
         ctx.require(len(defs) >= 2, f'{qual} defines its permutation')
-        # the key container itself: key(<own container>) when a key is given, else the container
-        for a in defs:
+        for n_def, a in enumerate(defs):
             v = a.value
-            key = f'{f.name}:order={norm(v)[:50]}'
+            key = f'{f.name}:order#{n_def}'
             if isinstance(v, ast.Call) and call_name(v) in ('np.argsort', 'np.lexsort') and v.args:
                 dep = any(isinstance(x, ast.Name) and x.id in tainted for x in ast.walk(v.args[0]))
                 (ctx.ok if dep else ctx.bad)(R, f, a, f'{call_name(v)} over `{norm(v.args[0])[:40]}`, which derives from the key container' if dep else
                                              f'{call_name(v)} sorts `{norm(v.args[0])[:40]}`, which does not derive from the key container', key=key)
-            elif all(not isinstance(x, ast.Name) or x.id in ('order', 'np') for x in ast.walk(v)) and 'order' in norm(v):
+            elif all(x.id in perm or x.id == 'np' for x in ast.walk(v) if isinstance(x, ast.Name)) and any(isinstance(x, ast.Name) and x.id in perm for x in ast.walk(v)):
                 ctx.ok(R, f, a, 'reversal of the permutation', key=key)
             else:
-                ctx.bad(R, f, a, f'`order = {norm(v)[:60]}` is not the result of sorting the key values: on this path the result ignores the sort keys '
+                ctx.bad(R, f, a, f'the permutation is set to `{norm(v)[:60]}`, which is not the result of sorting the key values: on this path the result ignores the sort keys '
                         '(e.g. a key function\'s output is computed and then dropped)', key=key)
-        # cfs comes from key(container) under `if key:`
-        cdefs = [a for a in walk_local(f.node) if isinstance(a, ast.Assign) and any(isinstance(t, ast.Name) and t.id == 'cfs' for t in a.targets)]
-        keyed = [a for a in cdefs if isinstance(a.value, ast.Call) and call_name(a.value) == 'key']
-        (ctx.ok if keyed else ctx.bad)(R, f, cdefs[0] if cdefs else f.node, 'the key function\'s result is the container that is sorted' if keyed else
-                                       'the key function is never applied', key=f'{f.name}:cfs=key(...)')
+        (ctx.ok if keyed_names else ctx.bad)(R, f, f.node, 'the key function\'s result is the container that is sorted' if keyed_names else
+                                             'the key function is never applied', key=f'{f.name}:key-applied')
